@@ -316,6 +316,8 @@ def main_check(check, argv=None):
     ap.add_argument("--no-evidence", action="store_true")
     ap.add_argument("--workers", type=int, default=None)
     ap.add_argument("--verbose", action="store_true")
+    ap.add_argument("--run-index", type=int, default=None, help="run one scenario index only and write its replay file")
+    ap.add_argument("--triage", action="store_true", help="list violation signatures with counts; no minimisation, no evidence")
     args = ap.parse_args(argv)
     prop = check.prop
     workers = args.workers or int(os.environ.get("VERIF_WORKERS", "0")) or (os.cpu_count() or 4)
@@ -341,6 +343,19 @@ def main_check(check, argv=None):
         scn["seed"] = rs
         scn["index"] = i
         scns.append(scn)
+
+    if args.run_index is not None:
+        scn = scns[args.run_index]
+        r = run_parallel(_run_one, [(check, scn, None)], 1, wall=check.run_wall)[0]
+        if not r.get("ok"):
+            print("HARNESS-ERROR", r.get("err"), r.get("tb"))
+            return 2
+        for v in r["res"]["violations"]:
+            path = write_replay(check, scn, Tape.unrle(r["res"]["tape"]), v["sig"], v, scn, None)
+            print("VIOLATION property=%s replay=%s\n  sig=%s\n  detail=%s" % (
+                prop, path, v["sig"], json.dumps(v.get("detail"), default=_json_default)[:1500]))
+        print("summary:", json.dumps(r["res"].get("summary"), default=_json_default))
+        return 1 if r["res"]["violations"] else 0
 
     jobs = [(check, s, None) for s in scns]
     results = run_parallel(_run_one, jobs, workers, wall=check.run_wall)
@@ -371,6 +386,15 @@ def main_check(check, argv=None):
             viol_by_sig.setdefault(v["sig"], []).append((i, v))
 
     new_sigs = [s for s in viol_by_sig if s not in known_sigs]
+    if args.triage:
+        for s_ in sorted(viol_by_sig):
+            i, v = viol_by_sig[s_][0]
+            print("%4d  %s   e.g. run=%d %s" % (len(viol_by_sig[s_]), s_, i,
+                                               json.dumps(v.get("detail"), default=_json_default)[:300]))
+        print("runs=%d harness_errors=%d" % (len(results), len(harness_errors)))
+        for i, r in harness_errors[:3]:
+            print("HARNESS-ERROR run=%d: %s\n%s" % (i, (r or {}).get("err"), (r or {}).get("tb", "")[-1500:]))
+        return 1 if new_sigs else 0
     exit_code = 0
     reported = []
     for s in sorted(viol_by_sig):
